@@ -122,7 +122,7 @@ func (f *Frame) oblige(kind, anchor, goal string, tags []string, src string) *Ob
 	if grp != "" {
 		tags = ntags
 	}
-	o := &Obligation{Name: f.oblName(kind, anchor), Kind: kind, Func: f.ex.topKey, Tags: tags, Prefix: len(f.ex.script), Goal: goal, Src: src, Group: grp}
+	o := &Obligation{Name: f.oblName(kind, anchor), Kind: kind, Func: f.ex.topKey, Tags: tags, Prefix: len(f.ex.script), Goal: goal, Src: src, Group: grp, Blk: f.ex.curBlk}
 	f.ex.obls = append(f.ex.obls, o)
 	return o
 }
@@ -137,6 +137,7 @@ func (ex *Exec) useGroup(g string) string {
 		ex.groups[g] = true
 		// declared at the very beginning of the script so that every obligation prefix contains it
 		ex.script = append([]string{"(declare-const " + n + " Bool)"}, ex.script...)
+		ex.scriptBlk = append([]int{-1}, ex.scriptBlk...)
 		for _, o := range ex.obls {
 			o.Prefix++
 		}
@@ -178,6 +179,8 @@ func (f *Frame) val(v ssa.Value) Val {
 
 func (ex *Exec) funcConst(fn *ssa.Function) string {
 	n := "fn." + sanitize(ex.P.keyOf(fn))
+	ex.globalDepth++
+	defer func() { ex.globalDepth-- }()
 	if !ex.heapDecl[n] {
 		ex.heapDecl[n] = true
 		ex.emit("(declare-const " + n + " Func)")
@@ -240,6 +243,8 @@ func (f *Frame) constVal(c *ssa.Const) Val {
 
 func (ex *Exec) floatConst(exact string) string {
 	n := "f64.c<" + sanitize(exact) + ">"
+	ex.globalDepth++
+	defer func() { ex.globalDepth-- }()
 	if !ex.heapDecl[n] {
 		ex.heapDecl[n] = true
 		ex.emit("(declare-const " + n + " F64)")
@@ -417,6 +422,8 @@ func (f *Frame) checkHeapWrite(heap, ptr string, prov provSet, anchor string) {
 func (ex *Exec) globalTerm(g *ssa.Global) string {
 	key := qualifier(g.Pkg.Pkg) + "." + g.Name()
 	n := "G." + sanitize(key)
+	ex.globalDepth++
+	defer func() { ex.globalDepth-- }()
 	if _, ok := ex.globals[n]; !ok {
 		elem := g.Type().(*types.Pointer).Elem()
 		ex.globals[n] = key
@@ -448,6 +455,8 @@ func (ex *Exec) globalTerm(g *ssa.Global) string {
 func (ex *Exec) globalAddr(g *ssa.Global) string {
 	key := qualifier(g.Pkg.Pkg) + "." + g.Name()
 	n := "GA." + sanitize(key)
+	ex.globalDepth++
+	defer func() { ex.globalDepth-- }()
 	if !ex.heapDecl[n] {
 		ex.heapDecl[n] = true
 		elem := g.Type().(*types.Pointer).Elem()
@@ -669,6 +678,9 @@ func (f *Frame) run(entry *State, entryPC string) {
 		if f.dead {
 			return
 		}
+		if f.parent == nil {
+			ex.curBlk = b.Index
+		}
 		if b == fn.Blocks[0] {
 			f.st = entry.clone()
 			f.pc = entryPC
@@ -680,6 +692,9 @@ func (f *Frame) run(entry *State, entryPC string) {
 			}
 		}
 		f.execBlock(b, back)
+	}
+	if f.parent == nil {
+		ex.curBlk = -1
 	}
 	f.runPanicExits(back)
 }
@@ -962,4 +977,31 @@ func wrapInt(t types.Type, term string) string {
 		return "(wrapu64 " + term + ")"
 	}
 	return term
+}
+
+// forwardReach: reach[b][c] is true when block c is reachable from block b along forward (non-back) edges (reflexive).
+func forwardReach(fn *ssa.Function) [][]bool {
+	_, back, _ := findLoops(fn)
+	n := len(fn.Blocks)
+	reach := make([][]bool, n)
+	for i := range reach {
+		reach[i] = make([]bool, n)
+	}
+	for _, b := range fn.Blocks {
+		stack := []*ssa.BasicBlock{b}
+		for len(stack) > 0 {
+			x := stack[len(stack)-1]
+			stack = stack[:len(stack)-1]
+			if reach[b.Index][x.Index] {
+				continue
+			}
+			reach[b.Index][x.Index] = true
+			for _, s := range x.Succs {
+				if !back[[2]*ssa.BasicBlock{x, s}] {
+					stack = append(stack, s)
+				}
+			}
+		}
+	}
+	return reach
 }
